@@ -35,13 +35,14 @@ class LoopSpec:
   ('while', test text); ordinal is the tie breaker."""
 
   def __init__(self, key, invariants, modifies=None, variant=None,
-               props=(), ordinal=None, ghost=None):
+               props=(), ordinal=None, ghost=None, extra_modifies=None):
     self.key = key
     self.invariants = clauses(invariants, props)
     self.modifies = modifies
     self.variant = variant
     self.ordinal = ordinal
     self.ghost = ghost or {}
+    self.extra_modifies = extra_modifies or []
 
 
 class Contract:
@@ -51,7 +52,8 @@ class Contract:
                loops=None, yields=None, props=(), ghost_params=None,
                inline=False, captured=None, pure=False, kind='function',
                on_raise=None, gen_post=None, setup=None, hints=None,
-               locals_shapes=None, memo=False, reads=None):
+               locals_shapes=None, memo=False, reads=None, at_calls=None,
+               binds=None):
     self.qualname = qualname
     self.params = params or {}            # name -> Shape (self excluded)
     self.result = result                  # Shape of the result (call side)
@@ -80,6 +82,13 @@ class Contract:
     # same value and re-installs the same post-state.
     self.memo = memo
     self.reads = reads
+    # obligations attached to call sites inside this function:
+    # {call text, e.g. 'results.push': [clauses over the locals + s.args]}
+    self.at_calls = {k: clauses(v, props) for k, v in (at_calls or {}).items()}
+    # binds: {'self.field': fn(s) -> value}: after the call the field holds
+    # exactly that value (used for object references, which cannot be equated
+    # by a formula); proved on the callee side like a postcondition.
+    self.binds = binds or {}
 
 
 class ClassSpec:
